@@ -36,6 +36,12 @@ def _family() -> dict[str, dict[str, Any]]:
     add("cond_two_outputs", lambda x: lax.cond(x[0] > 0, lambda v: (v + 1, v.sum()), lambda v: (v * 2, v.min()), x), [((3,), F32)], [[x] for x in xs3()])
     add("cond_operands_tuple", lambda x, y: lax.cond(jnp.sum(x) > jnp.sum(y), lambda a, b: a - b, lambda a, b: a * b, x, y), [((3,), F32), ((3,), F32)], [[x, v3] for x in xs3()])
     add("cond_nested", lambda x: lax.cond(x[0] > 0, lambda v: lax.cond(v[1] > 0, lambda u: u + 10, lambda u: u - 10, v), lambda v: v * 0.5, x), [((3,), F32)], [[np.array(a, F32)] for a in ([1, 1, 0], [1, -1, 0], [-1, 1, 0], [-1, -1, 0])])
+    add("cond_captures_transposed_operand", lambda p, x: (lambda y: lax.cond(p, lambda v: v * 2.0, lambda v: -v, y).sum() + jnp.transpose(y, (0, 2, 1)))(jnp.transpose(x, (0, 2, 1))), [((), np.bool_), ((2, 3, 4), F32)], [[np.bool_(b), (np.arange(24, dtype=F32).reshape(2, 3, 4) - 11) / 7] for b in (True, False)])
+    add("cond_captures_reshaped_operand", lambda p, x: (lambda y: lax.cond(p, lambda v: jnp.tanh(v), lambda v: v * 0.5, y).sum() + jnp.tanh(y).reshape(2, 3, 4))(x.reshape(6, 4)), [((), np.bool_), ((2, 3, 4), F32)], [[np.bool_(b), (np.arange(24, dtype=F32).reshape(2, 3, 4) - 11) / 7] for b in (True, False)])
+    add("fori_captures_transposed_operand", lambda x: (lambda y: lax.fori_loop(0, 2, lambda i, v: v + y.sum(0), jnp.zeros((4, 2), x.dtype)).sum() + jnp.transpose(y, (2, 0, 1)))(jnp.transpose(x, (1, 2, 0))), [((2, 3, 4), F32)], [[(np.arange(24, dtype=F32).reshape(2, 3, 4) - 11) / 7]])
+    add("cond_only_consumer_of_transpose", lambda p, x: lax.cond(p, lambda v: v * 2.0, lambda v: -v, jnp.transpose(x, (1, 0))), [((), np.bool_), ((3, 4), F32)], [[np.bool_(b), (np.arange(12, dtype=F32).reshape(3, 4) - 5) / 7] for b in (True, False)])
+    add("while_only_consumer_of_transpose", lambda x: lax.while_loop(lambda s: s[0] < 2, lambda s: (s[0] + 1, s[1] + jnp.transpose(x, (1, 0))), (jnp.int32(0), jnp.zeros((4, 3), x.dtype)))[1], [((3, 4), F32)], [[(np.arange(12, dtype=F32).reshape(3, 4) - 5) / 7]])
+    add("scan_only_consumer_of_reshape", lambda x: lax.scan(lambda c, r: (c + r, c), jnp.zeros((6,), x.dtype), jnp.tanh(x).reshape(2, 6))[0], [((3, 4), F32)], [[(np.arange(12, dtype=F32).reshape(3, 4) - 5) / 7]])
     add("switch_two_way", lambda i, x: lax.switch(i, [lambda v: v + 1, lambda v: v * 2], x), [((), I32), ((3,), F32)], [[I32(i), v3] for i in (0, 1, -1, 2, 5)])
     add("where_vs_cond_int_output", lambda x: lax.cond(jnp.sum(x) > 0, lambda v: jnp.argmax(v), lambda v: jnp.argmin(v), x), [((3,), F32)], [[x] for x in xs3()[:2]])
     # ---- while_loop ---------------------------------------------------------
